@@ -232,3 +232,363 @@ Example C11_cisco_blocks_example :
   cisco_rows true (print_ccfg old) (print_ccfg new)
   = Some [("vlan 5", ["no name"]); ("vlan 20", ["name y"])].
 Proof. vm_compute. repeat split. Qed.
+
+(* ====================================================================================== *)
+(* TEXT LEVEL.  The theorems above are about structured inputs (lines = range lists) and commands
+   as set effects.  The theorems below tie them to TEXT for all inputs: range lists and lines are
+   printed to rows, annet's own readers (_parse_vlancfg, lib.*_expand_vlandb) are run on the rows,
+   the emitted command rows are read back by the device reader parse_cmd.
+   Domain of the rule texts: rule_text_ok k (Spec/P_C11Text.v), true of every shipped rule kind. *)
+From Annet Require Import Spec.P_C11Text Proofs.VlanTextLib Proofs.VlanTextRanges Proofs.VlanTextLines
+     Proofs.VlanTextStruct Proofs.VlanTextMore Proofs.VlanStepProofs Proofs.VlanDbText Proofs.VlanCiscoText.
+Open Scope list_scope.
+
+Example C11_shipped_rule_texts_ok : forallb rule_text_ok shipped_kinds = true.
+Proof. vm_compute. reflexivity. Qed.
+
+(* print / parse round trip of a range list, both syntaxes, no condition on the ranges *)
+Theorem C11_print_parse :
+  forall rs,
+  hw_parse_ranges (words (join_with " " (map hw_range_str rs))) = Some rs /\
+  (rs <> [] -> cisco_parse_ranges (join_with "," (map cisco_range_str rs)) = Some rs).
+Proof. intro rs. split; [apply hw_print_parse_ranges|apply cisco_print_parse_ranges]. Qed.
+Print Assumptions C11_print_parse.
+
+(* annet's expanders on the printed text give the set the ranges denote (ranges lo <= hi) *)
+Theorem C11_expand_print :
+  forall rs, forallb range_ok rs = true ->
+  (exists s, hw_expand (join_with " " (map hw_range_str rs)) = Some s /\ NS.Equal s (set_of_ranges rs)) /\
+  (rs <> [] ->
+   exists s, cisco_expand (join_with "," (map cisco_range_str rs)) = Some s /\ NS.Equal s (set_of_ranges rs)).
+Proof.
+  intros rs H. apply ranges_ok_forallb in H. split; [now apply hw_expand_print|].
+  intro Hne. now apply cisco_expand_print.
+Qed.
+Print Assumptions C11_expand_print.
+
+(* expand(print(chunk)) for every chunk of collapse(S), any chunk length, both syntaxes; together
+   with C11_expand_collapse (the chunks' sets make up S) this is expand(collapse(S)) = S on text *)
+Theorem C11_expand_collapse_text :
+  forall tiny chunk_len s c, In c (chunked (S chunk_len) (collapse tiny s)) ->
+  (exists sh, hw_expand (join_with " " (map hw_range_str c)) = Some sh /\ NS.Equal sh (set_of_ranges c)) /\
+  (exists sc, cisco_expand (join_with "," (map cisco_range_str c)) = Some sc /\ NS.Equal sc (set_of_ranges c)).
+Proof. exact expand_print_chunk. Qed.
+Print Assumptions C11_expand_collapse_text.
+
+(* annet's _parse_vlancfg on a printed configuration line: the rule's prefix and the line's set *)
+Theorem C11_parse_line :
+  forall k l, rule_text_ok k = true -> line_ok k l = true ->
+  exists s, (if is_hw (rk_logic k) then hw_parse_vlancfg else cisco_parse_vlancfg) (print_line k l)
+            = Some (rk_prefix k, s) /\ NS.Equal s (set_of_ranges (snd l)).
+Proof. intros k l T H. exact (parse_line k T l H). Qed.
+Print Assumptions C11_parse_line.
+
+(* the device reader of configuration rows inverts the line printer (so printing is injective) *)
+Theorem C11_read_print_line :
+  forall k l, line_ok k l = true -> read_line k (print_line k l) = Some l.
+Proof. exact read_print_line. Qed.
+Print Assumptions C11_read_print_line.
+
+(* the device reader of command rows inverts the command printer on every emittable command *)
+Theorem C11_parse_print_cmd :
+  forall k c, rule_text_ok k = true -> emittable k c = true ->
+  parse_cmd k (print_cmd k (rk_prefix k) (rk_prefix k) c) = Some c.
+Proof. intros k c T H. exact (parse_print_cmd k T c H). Qed.
+Print Assumptions C11_parse_print_cmd.
+
+(* every command of the structured model is emittable *)
+Theorem C11_model_cmds_emittable :
+  forall k old new cs, wf_C11 (k, old, new) = true -> model_struct k old new = Some cs ->
+  forallb (emittable k) cs = true.
+Proof. intros k old new cs W E. exact (model_cmds_emittable k old new W cs E). Qed.
+Print Assumptions C11_model_cmds_emittable.
+
+(* struct_is_text PROVED: the text-level model (row diff by text, _parse_vlancfg_actions on the
+   added / removed rows, _process_vlandb, command printing with the parsed prefixes) is the
+   structured model composed with the printers, for every input of the domain *)
+Theorem C11_struct_is_text :
+  forall k old new, rule_text_ok k = true -> wf_C11 (k, old, new) = true ->
+  model_rows k (map (print_line k) old) (map (print_line k) new)
+  = option_map (map (print_cmd k (rk_prefix k) (rk_prefix k))) (model_struct k old new).
+Proof. intros k old new T W. exact (struct_is_text_wf k T old new W). Qed.
+Print Assumptions C11_struct_is_text.
+
+(* and the predicate used on real outputs holds of the text-level model's own rows *)
+Theorem C11_rows_holds :
+  forall k old new, rule_text_ok k = true -> wf_C11 (k, old, new) = true ->
+  P_C11 (k, old, new) (model_rows k (map (print_line k) old) (map (print_line k) new)) = true.
+Proof. intros k old new T W. exact (rows_holds k T old new W). Qed.
+Print Assumptions C11_rows_holds.
+
+(* C11_total / C11_final / C11_no_transient_loss over configuration ROWS (strings; totality = `exists out`).
+   rows_wf k ro rn: the rows are in the printer's range and the lines read from them are in wf_C11;
+   rows_set k rows: the VLAN set the rows denote on the device.  The emitted rows, in any order, are
+   readable as commands; executed on rows_set(old) they give exactly rows_set(new) and no prefix
+   drops a VLAN of both. *)
+Theorem C11_rows_final :
+  forall k ro rn, rows_wf k ro rn = true ->
+  exists out, model_rows k ro rn = Some out /\
+  forall out', Permutation out' out ->
+  exists cs', parse_cmds k out' = Some cs' /\
+              NS.Equal (simulate cs' (rows_set k ro)) (rows_set k rn).
+Proof.
+  intros k ro rn H. destruct (rows_main k ro rn H) as (out & E & G). exists out. split; [exact E|].
+  intros out' P. destruct (G out' P) as (cs' & Ep & Hf & _). now exists cs'.
+Qed.
+Print Assumptions C11_rows_final.
+
+Theorem C11_rows_no_transient_loss :
+  forall k ro rn, rows_wf k ro rn = true ->
+  exists out, model_rows k ro rn = Some out /\
+  forall out', Permutation out' out ->
+  exists cs', parse_cmds k out' = Some cs' /\
+    forall l1 l2, cs' = (l1 ++ l2)%list ->
+      NS.Subset (NS.inter (rows_set k ro) (rows_set k rn)) (simulate l1 (rows_set k ro)).
+Proof.
+  intros k ro rn H. destruct (rows_main k ro rn H) as (out & E & G). exists out. split; [exact E|].
+  intros out' P. destruct (G out' P) as (cs' & Ep & _ & Hp). now exists cs'.
+Qed.
+Print Assumptions C11_rows_no_transient_loss.
+
+(* the domain over rows is exactly the printer's range of wf_C11 *)
+Theorem C11_rows_domain :
+  (forall k old new, rule_text_ok k = true -> wf_C11 (k, old, new) = true ->
+     rows_wf k (map (print_line k) old) (map (print_line k) new) = true) /\
+  (forall old new, wf_db (old, new) = true -> db_rows_wf (print_db old) (print_db new) = true) /\
+  (forall catalyst old new, wf_cdb (catalyst, old, new) = true ->
+     cdb_rows_wf (print_ccfg old) (print_ccfg new) = true).
+Proof. split; [exact rows_wf_print|]. split; [exact db_rows_wf_print|exact cdb_rows_wf_print]. Qed.
+Print Assumptions C11_rows_domain.
+
+(* S_old / S_new of the rows theorems are what annet itself reads from the rows *)
+Theorem C11_rows_set_is_parsed :
+  forall k ro rn, rows_wf k ro rn = true ->
+  forall rows, rows = ro \/ rows = rn ->
+  exists p s, parse_actions (if is_hw (rk_logic k) then hw_parse_vlancfg else cisco_parse_vlancfg)
+                            rows None NS.empty = Some (p, s) /\
+              NS.Equal s (rows_set k rows) /\ (rows <> [] -> p = Some (rk_prefix k)).
+Proof. exact rows_set_is_parsed. Qed.
+Print Assumptions C11_rows_set_is_parsed.
+
+(* non-vacuity: concrete rows of the shipped trunk rule (three lines, one removed, one edited) and
+   of the Cisco rule (add form) are in the domain; the emitted rows *)
+Example C11_rows_example_hw :
+  let ro := ["port trunk allow-pass vlan 10 to 20 30"; "port trunk allow-pass vlan 40 50";
+             "port trunk allow-pass vlan 100 to 110"] in
+  let rn := ["port trunk allow-pass vlan 10 to 20 30"; "port trunk allow-pass vlan 100 to 105 120"] in
+  rows_wf k_trunk ro rn = true /\
+  model_rows k_trunk ro rn = Some ["undo port trunk allow-pass vlan 40 50 106 to 110";
+                                   "port trunk allow-pass vlan 120"].
+Proof. vm_compute. split; reflexivity. Qed.
+
+Example C11_rows_example_cisco :
+  let ro := ["switchport trunk allowed vlan 1-10,20"; "switchport trunk allowed vlan add 30,40-41"] in
+  let rn := ["switchport trunk allowed vlan 1-5,20-21"; "switchport trunk allowed vlan add 30,40-41"] in
+  rows_wf k_sw ro rn = true /\
+  model_rows k_sw ro rn = Some ["no switchport trunk allowed vlan remove 6-10";
+                                "switchport trunk allowed vlan add 21"].
+Proof. vm_compute. split; reflexivity. Qed.
+
+(* ====================================================================================== *)
+(* Device semantics of the commands (Model.Vlan.step, Model.VlanDb.effect) are definitions of the
+   property.  Sanity theorems: *)
+
+(* a VLAN the command does not name is left as it was; the named ones are decided by the command *)
+Theorem C11_step_frame_idempotent :
+  (forall c t s v, touched c = Some t -> ~ NS.In v t -> (NS.In v (step c s) <-> NS.In v s)) /\
+  (forall c s, NS.Equal (step c (step c s)) (step c s)) /\
+  (forall c s s', NS.Equal s s' -> NS.Equal (step c s) (step c s')).
+Proof. split; [exact step_frame|]. split; [exact step_idem|exact step_equal]. Qed.
+Print Assumptions C11_step_frame_idempotent.
+
+(* a command followed by its inverse restores the set when the command changed exactly the VLANs
+   it names (added VLANs were absent / removed VLANs were present) *)
+Theorem C11_step_inverse :
+  forall c c' t s, inverse c = Some c' -> touched c = Some t ->
+  (match c with Add _ => NS.Empty (NS.inter s t) | _ => NS.Subset t s end) ->
+  NS.Equal (step c' (step c s)) s.
+Proof. exact step_inverse. Qed.
+Print Assumptions C11_step_inverse.
+
+(* commands naming disjoint VLAN sets commute; a list of pairwise disjoint commands can be
+   executed in any order *)
+Theorem C11_step_commute :
+  (forall c1 c2 t1 t2 s, touched c1 = Some t1 -> touched c2 = Some t2 -> NS.Empty (NS.inter t1 t2) ->
+     NS.Equal (step c1 (step c2 s)) (step c2 (step c1 s))) /\
+  (forall cs cs', Permutation cs cs' -> ForallOrdPairs disjoint_cmds cs ->
+     forall s, NS.Equal (simulate cs s) (simulate cs' s)).
+Proof. split; [exact step_commute|exact simulate_perm_disjoint]. Qed.
+Print Assumptions C11_step_commute.
+
+(* `undo ... vlan all` / `undo instance N` / `... vlan none` = removal of the whole current set,
+   however it is written; replace = clear then add; a whole-list command does NOT commute with an
+   add (why the model must emit it alone) *)
+Theorem C11_undo_all_is_removal_of_current :
+  forall tiny s, NS.Equal (step RemoveAll s) (step (Remove (collapse tiny s)) s) /\
+                 NS.Equal (step SetNone s) (step RemoveAll s) /\
+                 (forall rs, NS.Subset s (set_of_ranges rs) -> NS.Equal (step RemoveAll s) (step (Remove rs) s)).
+Proof.
+  intros tiny s. split; [apply step_remove_all_collapse|]. split; [apply step_none_is_remove_all|].
+  intros rs H. now apply step_remove_all_cover.
+Qed.
+Print Assumptions C11_undo_all_is_removal_of_current.
+
+Theorem C11_whole_list_commands :
+  (forall rs s, NS.Equal (step (SetTo rs) s) (simulate [RemoveAll; Add rs] s)) /\
+  (exists rs s, ~ NS.Equal (step RemoveAll (step (Add rs) s)) (step (Add rs) (step RemoveAll s))).
+Proof. split; [exact step_set_to|exact remove_all_add_not_commute]. Qed.
+Print Assumptions C11_whole_list_commands.
+
+(* VLAN database: entering a block creates the VLAN, `undo vlan N` wipes it, they are inverse on a
+   VLAN that was absent / present, and commands on different VLANs commute *)
+Theorem C11_block_enter_undo :
+  forall n kids s,
+  NS.In n (gsimulate [GEnter n kids] s) /\ ~ NS.In n (gsimulate [GUndo n] s) /\
+  (~ NS.In n s -> NS.Equal (gsimulate [GEnter n kids; GUndo n] s) s) /\
+  (NS.In n s -> NS.Equal (gsimulate [GUndo n; GEnter n kids] s) s) /\
+  (forall m, n <> m -> NS.Equal (gsimulate [GEnter n kids; GUndo m] s) (gsimulate [GUndo m; GEnter n kids] s)).
+Proof.
+  intros n kids s. split; [apply enter_creates|]. split; [apply undo_wipes|].
+  split; [apply enter_undo|]. split; [apply undo_enter|]. intros m H. now apply block_cmds_commute.
+Qed.
+Print Assumptions C11_block_enter_undo.
+
+(* ====================================================================================== *)
+(* Huawei VLAN database, text level *)
+
+(* struct_is_text_db PROVED: split of the top-level rows between the two rules, batch_new read by
+   _parse_vlancfg from every `vlan batch` row, `multi` on the batch rows, block commands *)
+Theorem C11_db_struct_is_text :
+  forall old new, wf_db (old, new) = true ->
+  db_rows (print_db old) (print_db new) = option_map (map print_gcmd) (db_struct old new).
+Proof. exact db_struct_is_text. Qed.
+Print Assumptions C11_db_struct_is_text.
+
+(* C11_db_final / C11_db_no_transient_loss over the top-level ROWS of the two configurations *)
+Theorem C11_db_rows_final :
+  forall ro rn, db_rows_wf ro rn = true -> db_rows_guard ro rn = true ->
+  exists out, db_rows ro rn = Some out /\
+  forall out', Permutation out' out ->
+  exists gs', parse_gcmds out' = Some gs' /\
+              NS.Equal (gsimulate gs' (db_rows_set ro)) (db_rows_set rn).
+Proof.
+  intros ro rn H G. destruct (db_rows_main ro rn H G) as (out & E & K). exists out. split; [exact E|].
+  intros out' P. destruct (K out' P) as (gs' & Ep & Hf & _). now exists gs'.
+Qed.
+Print Assumptions C11_db_rows_final.
+
+Theorem C11_db_rows_no_transient_loss :
+  forall ro rn, db_rows_wf ro rn = true -> db_rows_guard ro rn = true ->
+  exists out, db_rows ro rn = Some out /\
+  forall out', Permutation out' out ->
+  exists gs', parse_gcmds out' = Some gs' /\
+    forall l1 l2, gs' = (l1 ++ l2)%list ->
+      NS.Subset (NS.inter (db_rows_set ro) (db_rows_set rn)) (gsimulate l1 (db_rows_set ro)).
+Proof.
+  intros ro rn H G. destruct (db_rows_main ro rn H G) as (out & E & K). exists out. split; [exact E|].
+  intros out' P. destruct (K out' P) as (gs' & Ep & _ & Hp). now exists gs'.
+Qed.
+Print Assumptions C11_db_rows_no_transient_loss.
+
+Theorem C11_db_rows_holds :
+  forall old new, wf_db (old, new) = true -> blocks_follow_batch (old, new) = true ->
+  P_C11_db (old, new) (db_rows (print_db old) (print_db new)) = true.
+Proof. exact db_rows_holds. Qed.
+Print Assumptions C11_db_rows_holds.
+
+Example C11_db_rows_example :
+  let ro := [("vlan batch 10 20 30 to 35", []); ("vlan 20", ["name a"])] in
+  let rn := [("vlan batch 10", []); ("vlan batch 20 30 to 32 40", []); ("vlan 20", ["name b"]); ("vlan 50", [])] in
+  db_rows_wf ro rn = true /\ db_rows_guard ro rn = true /\
+  db_rows ro rn = Some [("undo vlan batch 33 to 35", []); ("vlan batch 40", []);
+                        ("vlan 20", ["name b"]); ("vlan 50", [])].
+Proof. vm_compute. repeat split. Qed.
+
+(* ====================================================================================== *)
+(* Cisco / Nexus global `vlan` rule with blocks: totality and text level *)
+
+(* inside the domain no assertion of the block logic fires *)
+Theorem C11_cisco_blocks_total :
+  forall catalyst old new, wf_cdb (catalyst, old, new) = true ->
+  exists gs, cisco_struct catalyst old new = Some gs.
+Proof. exact cisco_total. Qed.
+Print Assumptions C11_cisco_blocks_total.
+
+(* struct_is_text_cdb PROVED (row diff by row text, _parse_vlancfg on every row, the id of a block
+   read from the parsed set) *)
+Theorem C11_cisco_struct_is_text :
+  forall catalyst old new, wf_cdb (catalyst, old, new) = true ->
+  cisco_rows catalyst (print_ccfg old) (print_ccfg new)
+  = option_map (map (print_cgcmd catalyst)) (cisco_struct catalyst old new).
+Proof. exact cisco_struct_is_text. Qed.
+Print Assumptions C11_cisco_struct_is_text.
+
+(* hence the three booleans the correspondence run evaluates (struct_is_text, _db, _cdb) are true on
+   every case: they are now regression tests of proved statements *)
+Theorem C11_struct_is_text_preds :
+  (forall k old new g y, rule_text_ok k = true -> struct_is_text (((k, old, new), g), y) = true) /\
+  (forall old new g y, struct_is_text_db (((old, new), g), y) = true) /\
+  (forall catalyst old new g y, struct_is_text_cdb (((catalyst, old, new), g), y) = true).
+Proof.
+  split; [|split].
+  - intros k old new g y T. destruct (wf_C11 (k, old, new)) eqn:W.
+    + exact (struct_is_text_true k T old new W g y).
+    + unfold struct_is_text. cbn [fst snd]. now rewrite W.
+  - intros old new g y. destruct (wf_db (old, new)) eqn:W.
+    + now apply db_struct_is_text_true.
+    + unfold struct_is_text_db. cbn [fst snd]. now rewrite W.
+  - intros c old new g y. destruct (wf_cdb (c, old, new)) eqn:W.
+    + now apply cisco_struct_is_text_true.
+    + unfold struct_is_text_cdb. cbn [fst snd]. now rewrite W.
+Qed.
+Print Assumptions C11_struct_is_text_preds.
+
+(* the readers the case files use on the rows given to the implementation invert the printers *)
+Theorem C11_config_parse_print :
+  (forall c, dbcfg_ok c = true -> parse_db (print_db c) = Some c) /\
+  (forall c, ccfg_ok c = true -> parse_ccfg (print_ccfg c) = Some c).
+Proof.
+  split.
+  - intros c H. apply parse_print_db. exact (config_ok_lines k_batch _ (dbcfg_ok_lines c H)).
+  - intros c H. apply parse_print_ccfg. now apply ccfg_ok_rows.
+Qed.
+Print Assumptions C11_config_parse_print.
+
+(* the two block theorems over the ROWS of the two configurations, Catalyst or not *)
+Theorem C11_cisco_rows_final :
+  forall catalyst ro rn, cdb_rows_wf ro rn = true -> cdb_rows_guard ro rn = true ->
+  exists out, cisco_rows catalyst ro rn = Some out /\
+  forall out', Permutation out' out ->
+  exists gs', parse_cgcmds out' = Some gs' /\
+              NS.Equal (gsimulate gs' (cdb_rows_set ro)) (cdb_rows_set rn).
+Proof.
+  intros c ro rn H G. destruct (cdb_rows_main c ro rn H G) as (out & E & K). exists out. split; [exact E|].
+  intros out' P. destruct (K out' P) as (gs' & Ep & Hf & _). now exists gs'.
+Qed.
+Print Assumptions C11_cisco_rows_final.
+
+Theorem C11_cisco_rows_no_transient_loss :
+  forall catalyst ro rn, cdb_rows_wf ro rn = true -> cdb_rows_guard ro rn = true ->
+  exists out, cisco_rows catalyst ro rn = Some out /\
+  forall out', Permutation out' out ->
+  exists gs', parse_cgcmds out' = Some gs' /\
+    forall l1 l2, gs' = (l1 ++ l2)%list ->
+      NS.Subset (NS.inter (cdb_rows_set ro) (cdb_rows_set rn)) (gsimulate l1 (cdb_rows_set ro)).
+Proof.
+  intros c ro rn H G. destruct (cdb_rows_main c ro rn H G) as (out & E & K). exists out. split; [exact E|].
+  intros out' P. destruct (K out' P) as (gs' & Ep & _ & Hp). now exists gs'.
+Qed.
+Print Assumptions C11_cisco_rows_no_transient_loss.
+
+Theorem C11_cisco_rows_holds :
+  forall catalyst old new, wf_cdb (catalyst, old, new) = true -> rows_disjoint (catalyst, old, new) = true ->
+  P_C11_cdb (catalyst, old, new) (cisco_rows catalyst (print_ccfg old) (print_ccfg new)) = true.
+Proof. exact cdb_rows_holds. Qed.
+Print Assumptions C11_cisco_rows_holds.
+
+Example C11_cisco_rows_example :
+  let ro := [("vlan 1-4,6-10", []); ("vlan 5", ["name x"])] in
+  let rn := [("vlan 1-10", []); ("vlan 20", ["name y"])] in
+  cdb_rows_wf ro rn = true /\ cdb_rows_guard ro rn = true /\
+  cisco_rows true ro rn = Some [("vlan 5", ["no name"]); ("vlan 20", ["name y"])].
+Proof. vm_compute. repeat split. Qed.
